@@ -45,6 +45,8 @@ fn groups(tier: Tier) -> Vec<Vec<(&'static str, PropLit)>> {
         vec![("a", S("q\"b\\n".into())), ("b", S("{a} {{b}}".into())), ("ab", S("a".into()))],
         // plain keys that begin like the raw-identifier prefix (`r`, `rr`, `r_`), next to a real raw identifier
         vec![("region", S("eu".into())), ("rrate", I(3)), ("r", B(true)), ("r#ref", S("raw".into()))],
+        // the WORD disabled inside props disables nothing
+        vec![("state", S("disabled".into())), ("disabled_reason", S("x".into())), ("disabled", B(true))],
         // keys that a case style would rewrite: a key is the identifier as written, whatever serialize_all says
         vec![("Teacher", S("t".into())), ("maxStudents", I(30)), ("min_len", B(true))],
     ];
